@@ -27,6 +27,16 @@ def hex (b : Bytes) : String :=
   if b.isEmpty then "-" else
   String.ofList (b.foldr (fun x acc => hexDigit (x.toNat / 16) :: hexDigit (x.toNat % 16) :: acc) [])
 
+def hex16 (x : UInt64) : String :=
+  String.ofList ((List.range 16).map fun i => hexDigit ((x.toNat >>> (60 - 4 * i)) % 16))
+
+def fnv1a (b : Bytes) : UInt64 :=
+  b.foldl (fun h c => (h ^^^ c.toUInt64) * 1099511628211) 14695981039346656037
+
+/-- the dump hook's rendering of a stored byte string: hex, or `#len#fnv1a64` above 4096 bytes -/
+def hexV (b : Bytes) : String :=
+  if b.length > 4096 then s!"#{b.length}#{hex16 (fnv1a b)}" else hex b
+
 def fields (line : String) : List String :=
   (line.splitOn " ").filter (· ≠ "")
 
